@@ -314,7 +314,7 @@ Definition pb_marshal_value (v : gval) : option json :=
   | GNil => Some JNull
   | GInt _ z => Some (JNum (num_of_int z))
   | GF64 b => if f64_finite b then Some (JNum (num_of_f64 b)) else None
-  | GStr s => Some (JStr s)
+  | GStr s => Some (JStr (utf8_sanitize s))
   | GBytes b => Some (JStr (b64_encode b))
   | GTime t => if between 0 (t_year t) 9999 then Some (JStr (fmt_time t)) else None
   | GBool b => Some (JBool b)
@@ -538,14 +538,35 @@ Definition item_ok (it : item) : bool :=
 Definition log_ok (u : ulog) : bool :=
   valid_utf8 (u_xid u) && (0 <=? u_branch u) && (u_branch u <=? 9223372036854775807)
   && forallb item_ok (u_items u).
-(* under the protobuf serializer only nil, float64 and (valid UTF-8) string values survive *)
+(* the value shapes the protobuf serializer preserves (every value travels as generic JSON and comes
+   back as nil / float64 / string / bool): nil, finite float64, valid UTF-8 strings, and exactly those
+   integers whose float64 image denotes the same integer (|z| <= 2^53 and the representable ones beyond) *)
 Definition pb_val_ok (v : gval) : bool :=
-  match v with GNil => true | GF64 b => f64_finite b | GStr s => valid_utf8 s | _ => false end.
+  match v with
+  | GNil => true
+  | GF64 b => f64_finite b
+  | GStr s => valid_utf8 s
+  | GInt w z => in_int64 z && executor_eq (GInt w z) (GF64 (f64_of_Z z))
+  | _ => false
+  end.
 Definition log_all_vals (p : gval -> bool) (u : ulog) : bool :=
   forallb (fun it => let oi o := match o with
                                  | Some i => forallb (forallb (fun c => p (c_val c))) (i_rows i)
                                  | None => true end in
                      oi (l_before it) && oi (l_after it)) (u_items u).
+
+Definition pcol_ok (c : col) : bool := valid_utf8 (c_name c) && pb_val_ok (c_val c).
+Definition pimage_ok (o : option image) : bool :=
+  match o with Some i => valid_utf8 (i_table i) && forallb (forallb pcol_ok) (i_rows i) | None => true end.
+Definition log_pb_ok (u : ulog) : bool :=
+  valid_utf8 (u_xid u)
+  && forallb (fun it => valid_utf8 (l_table it) && pimage_ok (l_before it) && pimage_ok (l_after it)) (u_items u).
+(* the strings of a protobuf message are valid UTF-8 (proto3 refuses anything else) *)
+Definition plog_clean (p : plog) : bool :=
+  let oi o := match o with
+              | Some i => valid_utf8 (pi_table i) && forallb (forallb (fun c => valid_utf8 (p_name c))) (pi_rows i)
+              | None => true end in
+  valid_utf8 (pu_xid p) && forallb (fun it => valid_utf8 (pl_table it) && oi (pl_before it) && oi (pl_after it)) (pu_items p).
 
 (* well-formedness of a regenerated table: what the proofs need of it *)
 Definition adequate (k : kind) (g : option group) : bool :=
